@@ -31,6 +31,8 @@ pub enum Case {
     HistoryV1 { spec: FileSpec, ops: Vec<Op> },
     /// history over a reader whose clones share one file position (like `&File`): clones must still be independent
     HistoryShared { spec: FileSpec, ops: Vec<Op> },
+    /// history over a reader that itself uses grenad (compressed files) inside every read and seek
+    HistoryReentrant { spec: FileSpec, ops: Vec<Op> },
 }
 
 pub fn deep_conf() -> BoxedStrategy<WConf> {
@@ -360,6 +362,12 @@ impl Prop for C03 {
             )
             .shrink(400),
             stage(
+                "reentrant-reader",
+                (gen::file_spec_light(tier), gen::history(60)).prop_map(|(spec, ops)| Case::HistoryReentrant { spec, ops }),
+                tier.pick(600, 8000),
+            )
+            .shrink(200),
+            stage(
                 "v1",
                 prop_oneof![
                     1 => explore_case(tier.pick(10, 16)).prop_map(Case::ExploreV1),
@@ -383,7 +391,7 @@ impl Prop for C03 {
     }
 
     fn health(&self, tier: Tier) -> Vec<(&'static str, u64)> {
-        vec![("explore:nontrivial", tier.pick(20, 600)), ("history:crossed-then-abs", tier.pick(100, 3000)), ("v1:multi-block", tier.pick(100, 3000)), ("shared:clone-and-swap", tier.pick(300, 4000))]
+        vec![("explore:nontrivial", tier.pick(20, 600)), ("history:crossed-then-abs", tier.pick(100, 3000)), ("v1:multi-block", tier.pick(100, 3000)), ("shared:clone-and-swap", tier.pick(300, 4000)), ("reentrant:compressed", tier.pick(150, 2000))]
     }
 
     fn assumptions(&self) -> Vec<String> {
@@ -446,6 +454,24 @@ impl Prop for C03 {
                     obs.class("shared:clone-and-swap");
                 }
                 obs.sample = Some(json!({"kind": "history-shared-position", "conf": spec.conf.label(), "entries": entries.len(), "ops": ops.len(), "clones": clones, "swaps": swaps}));
+                Ok(())
+            }
+            Case::HistoryReentrant { spec, ops } => {
+                let entries = spec.src.entries();
+                let bytes = write_file(&spec.conf, &entries)?;
+                let src = crate::ioinstr::ReentrantSource::new(std::rc::Rc::new(bytes));
+                let calls = src.calls.clone();
+                let reader = rd::guard("Reader::new", || grenad::Reader::new(src))?;
+                let c = rd::guard("into_cursor", || reader.into_cursor())?;
+                let (_, judged) = run_history_on(c, &entries, ops, None)
+                    .map_err(|f| Fail::new(format!("{}:reentrant-reader", f.signature), format!("with a reader that uses grenad itself inside read/seek: {}", f.msg)))?;
+                obs.add("history_judged", judged);
+                obs.add("reentrant_inner_uses", calls.get());
+                obs.nontrivial = spec.conf.codec != Codec::None && calls.get() >= 10;
+                if obs.nontrivial {
+                    obs.class("reentrant:compressed");
+                }
+                obs.sample = Some(json!({"kind": "history-reentrant-reader", "conf": spec.conf.label(), "entries": entries.len(), "ops": ops.len(), "inner_grenad_uses": calls.get()}));
                 Ok(())
             }
             Case::Explore(spec) => {
